@@ -60,7 +60,7 @@ GROUPS = {
     'gc': ['gc'],
     'heap': ['gc', 'vcell', 'heap'],
     'stack': ['vcell', 'stack'],
-    'cont': ['vcell', 'stack', 'vm_struct', 'continuation'],
+    'cont': ['vcell', 'stack', 'vm_struct', 'continuation', 'builtin_mod', 'builtin_procedure'],
     'builtins': ['vcell', 'stack', 'vm_struct', 'builtin_mod', 'builtin_vector'],
     'numbuiltins': ['number', 'vcell', 'stack', 'vm_struct', 'builtin_mod', 'builtin_mod_num', 'builtin_number'],
 }
@@ -108,7 +108,7 @@ PROPS = {
             ]},
     'C05': {'groups': ['cont'],
             'assumptions': [
-                'scope: the capture / restore laws of Stack and Vm (to_continuation, restore_continuation, push, pop, grow, clear); that invoking a continuation continues "as if call/cc had just returned v" additionally needs the continuation arm of run_one and call_cc, which are read, not verified',
+                'scope: the capture / restore laws of Stack and Vm (to_continuation, restore_continuation, push, pop, grow, clear) and the call/cc procedure (capture after popping argument count and receiver, before the instruction pointer is moved back; receiver returned; continuation object and argc 1 pushed); the invocation arm of run_one (pop argc and value, restore, deliver the value in acc) is read, not verified',
                 'Continuation is opaque to Verus (derive(Clone) over a tuple field, private fields): its four getters and the struct literal in Vm::to_continuation carry assumed contracts',
                 'restore_continuation requires the saved stack to be no longer than the running one; this holds because stacks never shrink (every Stack operation under contract keeps or doubles the length) but is a whole-history fact, assumed at the call site',
                 '<[T]>::to_vec / clone_from_slice specs assumed',
